@@ -312,7 +312,11 @@ def ddmin(pieces, fails, max_rounds=200):
     """classic ddmin; `fails(list_of_candidate_piece_lists) -> list[bool]` is batched"""
     n = 2
     rounds = 0
-    while len(pieces) >= 2 and rounds < max_rounds:
+    # bounded effort: at most ~4000 candidate evaluations and ~400 MB of candidate text per shrink (a failing case of
+    # several hundred kilobytes must not turn the report into an hour of shrinking)
+    evals = 0
+    volume = 0
+    while len(pieces) >= 2 and rounds < max_rounds and evals < 4000 and volume < 400_000_000:
         rounds += 1
         size = max(1, len(pieces) // n)
         subsets = [pieces[i:i + size] for i in range(0, len(pieces), size)]
@@ -321,6 +325,8 @@ def ddmin(pieces, fails, max_rounds=200):
             comp = [x for j, s in enumerate(subsets) if j != i for x in s]
             cands.append(comp)
         cands = [c for c in cands if c]
+        evals += len(cands)
+        volume += sum(sum(len(x) if hasattr(x, "__len__") else 1 for x in c) for c in cands[:1]) * len(cands)
         res = fails(cands) if cands else []
         hit = None
         for c, r in zip(cands, res):
